@@ -46,7 +46,8 @@ def finish(prop, pc, tier, seed, results, kani_res, wall, update_baseline=False)
             degraded.append("[%s] %s" % (r.name, dgr))
         if r.map is None:
             continue
-        all_ids_by_unit[r.name] = sorted(r.obligations.keys())
+        if not getattr(r, "order_only", False):
+            all_ids_by_unit[r.name] = sorted(r.obligations.keys())
         for t in r.trusted:
             if t not in trusted:
                 trusted.append(t)
@@ -174,7 +175,8 @@ def finish(prop, pc, tier, seed, results, kani_res, wall, update_baseline=False)
     ev = {
         "property_id": prop, "tier": tier, "seed": seed, "level": "proof",
         "coverage": {
-            "obligations": n_obl, "discharged": discharged,
+            # obligations the property needs; the unrestricted clauses recorded as known findings are listed separately
+            "obligations": n_obl - sum(1 for o in obligations.values() if o["status"] == "known-finding"), "discharged": discharged,
             "known_findings": sum(1 for o in obligations.values() if o["status"] == "known-finding"),
             "checker_cmd": " ; ".join(c for c in cmds if c),
             "trusted_base": trusted,
